@@ -9,6 +9,7 @@ import (
 	"fmt"
 	"os"
 	"sync"
+	"sync/atomic"
 	"time"
 
 	kio "github.com/flanglet/kanzi-go/v2/io"
@@ -494,12 +495,20 @@ func cmdReplayReader(args []string) int {
 	jobs := make(chan job, 64)
 	var mu sync.Mutex
 	var wg sync.WaitGroup
+	var nviol int32
 	for w := 0; w < par; w++ {
 		wg.Add(1)
 		go func() {
 			defer wg.Done()
 			for j := range jobs {
+				if atomic.LoadInt32(&nviol) >= 12 {
+					// enough witnesses: the remaining scenarios would only cost time (hangs are bounded by timeouts)
+					continue
+				}
 				r := replayReaderOne(j.s, realB, seed+int64(j.n), 3*time.Second)
+				if r.Status == "violation" {
+					atomic.AddInt32(&nviol, 1)
+				}
 				b, _ := json.Marshal(r)
 				mu.Lock()
 				bw.Write(b)
